@@ -171,7 +171,8 @@ def ProdTy (x : Ext) (σ : Space) (f : Nat) : Prop :=
   (∀ t j v, de x σ f t j = .ok v → tyB σ f t v = true) ∧
   (∀ d deny so j p, deVariantBody x σ f d deny so j = .ok p → variantTy σ (tyB σ f) d p = true) ∧
   (∀ ps deny j v, deStruct x σ f ps deny j = .ok v → ∃ fs, v = .struct fs ∧ fieldsTy σ (tyB σ f) ps fs = true) ∧
-  (∀ t v, dflt x σ f t = .ok v → tyB σ f t v = true)
+  (∀ t v, dflt x σ f t = .ok v → tyB σ f t v = true) ∧
+  (∀ t c v c', deFlat x σ f t c = (.ok v, c') → tyB σ f t v = true)
 
 theorem mapM'_all_ty {x : Ext} {σ : Space} {f : Nat} {t' : Id} (ihDe : ∀ t j v, de x σ f t j = .ok v → tyB σ f t v = true)
     {xs : List Json} {vs : List Val} (hm : mapM' (de x σ f t') xs = .ok vs) : vs.all (tyB σ f t') = true := by
@@ -182,7 +183,7 @@ theorem mapM'_all_ty {x : Ext} {σ : Space} {f : Nat} {t' : Id} (ihDe : ∀ t j 
 
 theorem de_ty_step (x : Ext) (σ : Space) (f : Nat) (ih : ProdTy x σ f) :
     ∀ t j v, de x σ (f + 1) t j = .ok v → tyB σ (f + 1) t v = true := by
-  obtain ⟨ihDe, ihVar, ihStruct, ihDflt⟩ := ih
+  obtain ⟨ihDe, ihVar, ihStruct, ihDflt, ihFlat⟩ := ih
   intro t j v h
   cases hget : σ.get t with
   | none => simp [de, hget] at h
@@ -397,7 +398,7 @@ open TypifyModel TypifyModel.Serde
 
 theorem var_ty_step (x : Ext) (σ : Space) (f : Nat) (ih : ProdTy x σ f) :
     ∀ d deny so j p, deVariantBody x σ (f + 1) d deny so j = .ok p → variantTy σ (tyB σ (f + 1)) d p = true := by
-  obtain ⟨ihDe, ihVar, ihStruct, ihDflt⟩ := ih
+  obtain ⟨ihDe, ihVar, ihStruct, ihDflt, ihFlat⟩ := ih
   intro d deny so j p h
   cases d with
   | simple =>
@@ -453,14 +454,104 @@ theorem mapM'_fieldsTy' {σ : Space} {ty : Id → Val → Bool} {G : Field → E
 theorem tyOrNone_of {σ : Space} {ty : Id → Val → Bool} {t : Id} {v : Val} (h : ty t v = true) : tyOrNone σ ty t v = true := by
   simp [tyOrNone, h]
 
+theorem foldFields_fieldsTy {σ : Space} {ty : Id → Val → Bool}
+    {named : Field → Except E (String × Val)}
+    {flat : Field → List (String × Json) → Except E Val × List (String × Json)}
+    (hn : ∀ p r, named p = .ok r → tyOrNone σ ty p.ty r.2 = true)
+    (hf : ∀ p c v c', flat p c = (.ok v, c') → tyOrNone σ ty p.ty v = true) :
+    ∀ (ps : List Field) (c : List (String × Json)) (fs : List (String × Val)) (c' : List (String × Json)),
+      foldFields named flat ps c = (.ok fs, c') → fieldsTy σ ty ps fs = true := by
+  intro ps
+  induction ps with
+  | nil =>
+    intro c fs c' h
+    simp only [foldFields, Prod.mk.injEq, Except.ok.injEq] at h
+    obtain ⟨rfl, _⟩ := h
+    rfl
+  | cons p ps ih =>
+    intro c fs c' h
+    simp only [foldFields] at h
+    split at h
+    · -- flattened member
+      cases hfp : flat p c with
+      | mk r c1 =>
+        rw [hfp] at h
+        cases r with
+        | error e => simp at h
+        | ok v =>
+          simp only at h
+          cases hrec : foldFields named flat ps c1 with
+          | mk r2 c2 =>
+            rw [hrec] at h
+            cases r2 with
+            | error e => simp at h
+            | ok rs =>
+              simp only [Prod.mk.injEq, Except.ok.injEq] at h
+              obtain ⟨rfl, _⟩ := h
+              simp only [fieldsTy, Bool.and_eq_true]
+              exact ⟨hf p c v c1 hfp, ih c1 rs c2 hrec⟩
+    · cases hnp : named p with
+      | error e => rw [hnp] at h; simp at h
+      | ok a =>
+        rw [hnp] at h
+        simp only at h
+        cases hrec : foldFields named flat ps c with
+        | mk r2 c2 =>
+          rw [hrec] at h
+          cases r2 with
+          | error e => simp at h
+          | ok rs =>
+            simp only [Prod.mk.injEq, Except.ok.injEq] at h
+            obtain ⟨rfl, _⟩ := h
+            obtain ⟨n, w⟩ := a
+            simp only [fieldsTy, Bool.and_eq_true]
+            exact ⟨hn p (n, w) hnp, ih c rs c2 hrec⟩
+
 theorem struct_ty_step (x : Ext) (σ : Space) (f : Nat) (ih : ProdTy x σ f) :
     ∀ ps deny j v, deStruct x σ (f + 1) ps deny j = .ok v →
       ∃ fs, v = .struct fs ∧ fieldsTy σ (tyB σ (f + 1)) ps fs = true := by
-  obtain ⟨ihDe, ihVar, ihStruct, ihDflt⟩ := ih
+  obtain ⟨ihDe, ihVar, ihStruct, ihDflt, ihFlat⟩ := ih
   intro ps deny j v h
   simp only [deStruct] at h
   split at h
-  · simp at h
+  · -- a struct with flattened members: named members as below, flattened ones through `deFlat`
+    cases j with
+    | obj kvs =>
+      simp only at h
+      split at h
+      · simp at h
+      · rename_i fs rest hfold
+        split at h
+        · simp at h
+        · simp only [Except.ok.injEq] at h; subst h
+          refine ⟨fs, rfl, foldFields_fieldsTy ?_ ?_ _ _ _ _ hfold⟩
+          · intro p r hG
+            split at hG
+            · split at hG
+              · rename_i a ha
+                simp only [Except.ok.injEq] at hG; subst hG
+                exact tyOrNone_of (tyB_mono σ _ _ _ (ihDe _ _ _ ha))
+              · simp at hG
+            · split at hG
+              · split at hG
+                · rename_i hopt
+                  simp only [Except.ok.injEq] at hG; subst hG
+                  simp [tyOrNone, isNoneV, hopt]
+                · simp at hG
+              · split at hG
+                · rename_i a ha
+                  simp only [Except.ok.injEq] at hG; subst hG
+                  exact tyOrNone_of (tyB_mono σ _ _ _ (ihDflt _ _ ha))
+                · simp at hG
+              · split at hG
+                · rename_i a ha
+                  simp only [Except.ok.injEq] at hG; subst hG
+                  exact tyOrNone_of (tyB_mono σ _ _ _ (ihDe _ _ _ ha))
+                · simp at hG
+                · simp at hG
+          · intro p c w c' hF
+            exact tyOrNone_of (tyB_mono σ _ _ _ (ihFlat _ _ _ _ hF))
+    | _ => simp at h
   · cases j with
     | obj kvs =>
       simp only at h
@@ -552,7 +643,7 @@ theorem nonreject_ok {α : Type} {r : Except E α} {v : α}
 
 theorem dflt_ty_step (x : Ext) (σ : Space) (f : Nat) (ih : ProdTy x σ f) :
     ∀ t v, dflt x σ (f + 1) t = .ok v → tyB σ (f + 1) t v = true := by
-  obtain ⟨ihDe, ihVar, ihStruct, ihDflt⟩ := ih
+  obtain ⟨ihDe, ihVar, ihStruct, ihDflt, ihFlat⟩ := ih
   intro t v h
   cases hget : σ.get t with
   | none => simp [dflt, hget] at h
@@ -671,17 +762,95 @@ theorem dflt_ty_step (x : Ext) (σ : Space) (f : Nat) (ih : ProdTy x σ f) :
     | native n ps => simp [dflt, hget] at h
     | reference r => simp [dflt, hget] at h
 
+/-- the `Option` arm of `deFlat`, with the nested-option test as a Boolean -/
+theorem deFlat_option_eq (x : Ext) {σ : Space} {t t' : Id} {ed : List String} {im : List Impl}
+    (hget : σ.get t = some ⟨.option t', ed, im⟩) (f : Nat) (c : List (String × Json)) :
+    deFlat x σ (f + 1) t c =
+      (if isOption σ t' then (.error .unsupported, c)
+       else match deFlat x σ f t' c with
+         | (.ok v, c') => (.ok (.some v), c')
+         | (.error .reject, c') => (.ok .none, c')
+         | (.error e, c') => (.error e, c')) := by
+  simp only [deFlat, hget]
+  cases hg' : σ.get t' with
+  | none => simp [isOption, hg'] <;> rfl
+  | some e' =>
+    obtain ⟨d', ed', im'⟩ := e'
+    cases d' <;> simp [isOption, hg'] <;> rfl
+
+theorem flat_ty_step (x : Ext) (σ : Space) (f : Nat) (ih : ProdTy x σ f) :
+    ∀ t c v c', deFlat x σ (f + 1) t c = (.ok v, c') → tyB σ (f + 1) t v = true := by
+  obtain ⟨ihDe, ihVar, ihStruct, ihDflt, ihFlat⟩ := ih
+  intro t c v c' h
+  cases hget : σ.get t with
+  | none => simp [deFlat, hget] at h
+  | some ent =>
+    obtain ⟨det, ed, im⟩ := ent
+    cases det with
+    | struct n props deny d =>
+      simp only [deFlat, hget] at h
+      unfold tyB; simp only [hget]
+      split at h
+      · simp only [Prod.mk.injEq] at h
+        obtain ⟨fs, rfl, hfs⟩ := ihStruct _ _ _ _ h.1
+        exact hfs
+      · simp only [Prod.mk.injEq] at h
+        obtain ⟨fs, rfl, hfs⟩ := ihStruct _ _ _ _ h.1
+        exact hfs
+    | map k vt =>
+      simp only [deFlat, hget, Prod.mk.injEq] at h
+      exact tyB_mono σ _ _ _ (ihDe _ _ _ h.1)
+    | option t' =>
+      rw [deFlat_option_eq x hget] at h
+      unfold tyB; simp only [hget, Bool.or_eq_true]
+      cases hio : isOption σ t' with
+      | true => rw [hio] at h; simp at h
+      | false =>
+        rw [hio] at h; simp only [Bool.false_eq_true, if_false] at h ⊢
+        cases hrec : deFlat x σ f t' c with
+        | mk r c1 =>
+          rw [hrec] at h
+          cases r with
+          | ok w =>
+            simp only [Prod.mk.injEq, Except.ok.injEq] at h
+            obtain ⟨rfl, _⟩ := h
+            exact Or.inr (ihFlat _ _ _ _ hrec)
+          | error e =>
+            cases e <;> simp only [Prod.mk.injEq, Except.ok.injEq] at h <;> try (exact absurd h.1 (by simp))
+            obtain ⟨rfl, _⟩ := h
+            exact Or.inl rfl
+    | box t' =>
+      simp only [deFlat, hget] at h
+      unfold tyB; simp only [hget]
+      exact ihFlat _ _ _ _ h
+    | newtype n inner cst d =>
+      unfold tyB; simp only [hget]
+      cases cst with
+      | none => simp only [deFlat, hget] at h; exact ihFlat _ _ _ _ h
+      | _ => simp [deFlat, hget] at h
+    | «enum» n tag vs deny d b =>
+      cases tag with
+      | untagged =>
+        simp only [deFlat, hget, Prod.mk.injEq] at h
+        exact tyB_mono σ _ _ _ (ihDe _ _ _ h.1)
+      | internal tg =>
+        simp only [deFlat, hget, Prod.mk.injEq] at h
+        exact tyB_mono σ _ _ _ (ihDe _ _ _ h.1)
+      | _ => simp [deFlat, hget] at h
+    | _ => simp [deFlat, hget] at h
+
 theorem prodTy (x : Ext) (σ : Space) : ∀ f, ProdTy x σ f := by
   intro f
   induction f with
   | zero =>
-    refine ⟨?_, ?_, ?_, ?_⟩
+    refine ⟨?_, ?_, ?_, ?_, ?_⟩
     · intro t j v h; simp [de] at h
     · intro d deny so j p h; simp [deVariantBody] at h
     · intro ps deny j v h; simp [deStruct] at h
     · intro t v h; simp [dflt] at h
+    · intro t c v c' h; simp [deFlat] at h
   | succ f ih =>
-    exact ⟨de_ty_step x σ f ih, var_ty_step x σ f ih, struct_ty_step x σ f ih, dflt_ty_step x σ f ih⟩
+    exact ⟨de_ty_step x σ f ih, var_ty_step x σ f ih, struct_ty_step x σ f ih, dflt_ty_step x σ f ih, flat_ty_step x σ f ih⟩
 
 /-- everything `de` produces is a well-formed value of the type -/
 theorem de_ty (x : Ext) (σ : Space) {f : Nat} {t : Id} {j : Json} {v : Val} (h : de x σ f t j = .ok v) :
@@ -689,6 +858,6 @@ theorem de_ty (x : Ext) (σ : Space) {f : Nat} {t : Id} {j : Json} {v : Val} (h 
 
 /-- so is `Default::default()` -/
 theorem dflt_ty (x : Ext) (σ : Space) {f : Nat} {t : Id} {v : Val} (h : dflt x σ f t = .ok v) :
-    tyB σ f t v = true := (prodTy x σ f).2.2.2 t v h
+    tyB σ f t v = true := (prodTy x σ f).2.2.2.1 t v h
 
 end TypifyModel.WireEq
